@@ -414,6 +414,24 @@ theorem hash_from_str_rejects (n : Nat) (s : Bytes) (hs : s.length ≠ 2 * n) :
   | error e => exact ⟨e, rfl⟩
   | ok r => exact absurd (hash_from_str_length n s r hr).2 hs
 
+/-- serde: serialising to a JSON string and deserialising returns the hash -/
+theorem hash_json_roundtrip (n : Nat) (h : Bytes) (hl : h.length = n) : hashOfJson n (hashToJson h) = some h := by
+  have hbody : ∀ c ∈ hashToHex h, c ≠ 0x22 ∧ c ≠ 0x5c ∧ c.toNat ≥ 0x20 := by
+    intro c hc
+    simp only [hashToHex, List.mem_flatMap] at hc
+    obtain ⟨b, _, hb⟩ := hc
+    have hd : ∀ k, k < 16 → hexDigitByte k ≠ 0x22 ∧ hexDigitByte k ≠ 0x5c ∧ (hexDigitByte k).toNat ≥ 0x20 := by decide
+    have hbl : b.toNat < 256 := UInt8.toNat_lt b
+    simp only [List.mem_cons, List.not_mem_nil, or_false] at hb
+    rcases hb with rfl | rfl
+    · exact hd _ (by omega)
+    · exact hd _ (by omega)
+  have hall : (hashToHex h).all (fun c => decide (c ≠ 0x22 ∧ c ≠ 0x5c ∧ c.toNat ≥ 0x20)) = true := by
+    rw [List.all_eq_true]; intro c hc; exact decide_eq_true (hbody c hc)
+  simp only [hashToJson, List.cons_append, List.nil_append, hashOfJson]
+  simp [List.getLast?_append, hash_hex_roundtrip n h hl]
+  exact hbody
+
 /-! ## `Hash<N>`: CBOR -/
 
 theorem beNat_beBytes1 (n : Nat) (hn : n < 256) : beNat (beBytes 1 n) = n := by
